@@ -19,3 +19,4 @@ CFG = dict(
      level_note="Trusts the Go runtime, std/x crypto primitives, rapid and the reference implementation's reading of the README; the key-wrap "
                 "primitives themselves (kit crypto) are only used as a black box behind the callbacks (their correctness is C03).",
      timeout_quick=600, timeout_thorough=2400)
+CFG["rule"] += ' Added after independently written breaking changes: Vault: knows the canonical algorithm names only (aliases are resolved by Encrypt) and unwraps only under the algorithm it wrapped under.'
